@@ -301,8 +301,8 @@ def c13_d(ctx: Ctx):
 @rule("C13-e")
 def c13_e(ctx: Ctx):
     """Destination-only document keys survive: nested mappings are merged, existing keys overwritten only when selected (same obligation as C14-b)."""
-    from .c14 import c14_b
-    res = c14_b(ctx)
+    from .c14 import c14_b, c14_d, c14_e
+    res = c14_b(ctx) + [r for r in c14_d(ctx) if "restore-before-yield" in r.construct or "fresh-backup" in r.construct] + [r for r in c14_e(ctx) if "main_sync" in r.function]
     for r in res:
         r.rule = "C13-e"
     return res
